@@ -7,7 +7,7 @@ from .. import core, values
 
 ID = 'C13'
 LEVEL = 'exploration'
-RULE = ('case = rooted directed graph of container nodes (list, dict, tuple-holding-a-list, user objects holding a list whose printer is registered for the class or through a predicate) with ordered out-edges to '
+RULE = ('case = rooted directed graph of container nodes (list, dict, tuple-holding-a-list, user objects holding a list whose printer is registered for the class or through a predicate, user objects whose children are the arguments of the call - a sole container child is the hugged sole argument) with ordered out-edges to '
         'nodes or int leaves, edges added after creation (so self-loops, 2- and 3-cycles through mixed kinds and diamonds '
         'exist), optionally with comment() on some edges (a commented value is not a node), plus a second root; history = print g, print g, print an unrelated value, print the graph from the second '
         'root, print g, print g with a printer returning a non-document inside every node (the call raises while the '
@@ -21,7 +21,9 @@ ASSUMPTIONS = ['id() of live objects is the identity the marker must name', 'Rec
 BUDGET = {'quick': {'random': 6000, 'shards': 16}, 'thorough': {'random': 300000, 'shards': 16}}
 
 KINDS = ['list', 'dict', 'tuple']
-OBJ_KINDS = ['cobj', 'pobj']       # user objects holding a list: printer registered for the class / through a predicate
+OBJ_KINDS = ['cobj', 'pobj', 'wobj']   # user objects holding a list: printer registered for the class / through a predicate;
+                                       # wobj passes its children themselves as the arguments of the call (a sole child that
+                                       # is a list / dict / tuple node is the hugged sole argument of a call)
 
 
 class CNode:
@@ -34,6 +36,11 @@ class PNode:
         self.items = []
 
 
+class WNode:
+    def __init__(self):
+        self.items = []
+
+
 _registered = []
 
 
@@ -42,6 +49,7 @@ def _register():
         from prettyprinter import register_pretty, pretty_call
         register_pretty(CNode)(lambda v, ctx: pretty_call(ctx, 'CNode', v.items))
         register_pretty(predicate=lambda v: isinstance(v, PNode))(lambda v, ctx: pretty_call(ctx, 'PNode', v.items))
+        register_pretty(WNode)(lambda v, ctx: pretty_call(ctx, 'WNode', *v.items))
         _registered.append(True)
 STEP_CAP = 400000
 MARK = re.compile(r'<Recursion on (\w+) with id=(\d+)>')
@@ -54,7 +62,7 @@ def build_graph(case):
     _register()
     for k in kinds:
         if k in OBJ_KINDS:
-            o = CNode() if k == 'cobj' else PNode()
+            o = {'cobj': CNode, 'pobj': PNode, 'wobj': WNode}[k]()
             objs.append(o)
             sinks.append(o.items)
         elif k == 'list':
@@ -104,6 +112,8 @@ def expected(obj, path, stats):
             return ('dict', tuple((('str', k), expected(x, path, stats)) for k, x in obj.items()))
         if isinstance(obj, (CNode, PNode)):
             return ('call', type(obj).__name__, (expected(obj.items, path, stats),))
+        if isinstance(obj, WNode):
+            return ('call', 'WNode', tuple(expected(x, path, stats) for x in obj.items))
     finally:
         path.discard(id(obj))
     raise TypeError(obj)
@@ -123,7 +133,7 @@ def from_ast(node):
         return ('dict', tuple((from_ast(k), from_ast(v)) for k, v in zip(node.keys, node.values)))
     if isinstance(node, ast.Call) and isinstance(node.func, ast.Name) and node.func.id == '__REC__':
         return ('marker', node.args[0].value, node.args[1].value)
-    if isinstance(node, ast.Call) and isinstance(node.func, ast.Name) and node.func.id in ('CNode', 'PNode') and not node.keywords:
+    if isinstance(node, ast.Call) and isinstance(node.func, ast.Name) and node.func.id in ('CNode', 'PNode', 'WNode') and not node.keywords:
         return ('call', node.func.id, tuple(from_ast(x) for x in node.args))
     return ('unknown', ast.dump(node)[:80])
 
@@ -161,6 +171,10 @@ def fixed_cases():
         yield {'kinds': [k], 'edges': [[0]], 'root': 0, 'root2': 0}
         yield {'kinds': [k, 'list', k], 'edges': [[1], [2, 2], [0, 1]], 'root': 0, 'root2': 2}
         yield {'kinds': ['dict', k, 'pobj'], 'edges': [[1, 2], [2, 0], [1, 2, -4]], 'root': 0, 'root2': 1}
+    # a list / dict / tuple node that is the sole argument of a call and lies on a cycle through that call
+    for k in KINDS:
+        yield {'kinds': [k, 'wobj'], 'edges': [[1], [0]], 'root': 0, 'root2': 1}
+        yield {'kinds': ['wobj', k], 'edges': [[1], [1, -2]], 'root': 0, 'root2': 1}
     # cycles whose back-reference is a commented dict value (rings of one to three dicts)
     for w in (20, 79):
         yield {'kinds': ['dict'], 'edges': [[0]], 'root': 0, 'root2': 0, 'commented': [[0, 0]], 'width': w}
@@ -228,7 +242,7 @@ def oracle(case):
     from .. import faults
     sinks = []
     for o in objs:
-        s = o[0] if isinstance(o, tuple) else (o.items if isinstance(o, (CNode, PNode)) else o)
+        s = o[0] if isinstance(o, tuple) else (o.items if isinstance(o, (CNode, PNode, WNode)) else o)
         if not any(s is x for x in sinks):
             sinks.append(s)
     bads = []
